@@ -8,13 +8,21 @@
   and a proof discloses structure only along the paths from the root to the targets: every
   element off those paths, and each target itself, appears solely as an elided digest."
 
-  The hash `h`, the AEAD `A` and the compressor `Z` are arbitrary throughout.  Positions
+  The hash `h` is arbitrary throughout.  Positions
   are `Path`s (`Lemmas/Paths.lean`); `e.at p = some x` says that `x` is the element of `e`
   at position `p`.  `proofOf T e` (`Lemmas/ProofLemmas.lean`) is the proof envelope written
-  as a pure function: prune everything outside the reveal set, then prune the targets that
-  have no target beneath them.  `Inv h e` (every envelope the library produces satisfies
-  it) is needed wherever the traversal rebuilds nodes: on an envelope that is only `WF` the
-  rebuilding `assert!` can fire (`proof_panics_without_canon`).
+  as a pure function: an element is kept exactly where a target lies strictly beneath it,
+  every other element is replaced by its digest.  `Inv h e` (every envelope the library
+  produces satisfies it) is needed wherever the traversal rebuilds nodes: on an envelope
+  that is only `WF` the rebuilding `assert!` can fire (`proof_panics_without_canon`).
+
+  History: the construction used to be two digest-targeted elisions (reveal the digests on
+  the paths, then remove the targets).  An element that merely *shared its digest* with an
+  element on a path - a compressed, encrypted or partly elided copy elsewhere in the
+  envelope - then stayed disclosed off the paths (finding F5b; positional minimality was
+  provable only under two hypotheses and refuted without them).  The repaired code builds
+  the proof position by position; minimality now holds for every envelope and every
+  target set with no hypothesis on the hash (`proof_minimal`).
 -/
 import EnvVerif.Lemmas.ProofLemmas
 namespace EnvVerif
@@ -58,11 +66,11 @@ theorem confirm_rejects_absent_target (e : Env) (T : List Digest) (p : Env) (d :
 example : ∃ (T : List Digest) (p : Env) (d : Digest), d ∈ T ∧ d ∉ walkDigests p :=
   ⟨[⟨9⟩], e0, ⟨9⟩, by simp, by decide +kernel⟩
 
-/-! ### the reveal set and the interior set -/
+/-! ### the reveal set -/
 
-/-- `reveal_sets`, first output: started with `cur` above the element, it yields `cur` and
-the digests on the chain from the element down to a target position, both ends included —
-provided the element has a target position at all -/
+/-- `reveal_sets`: started with `cur` above the element, it yields `cur` and the digests on
+the chain from the element down to a target position, both ends included — provided the
+element has a target position at all -/
 theorem revealSets_spec (T cur : List Digest) (e : Env) (d : Digest) :
     d ∈ revealSets T cur e ↔
       ∃ p x, e.at p = some x ∧ memD T x.digest = true ∧
@@ -70,38 +78,34 @@ theorem revealSets_spec (T cur : List Digest) (e : Env) (d : Digest) :
   rw [revealSets_collect]
   simp [CollectSpec, OnPath]
 
-/-- `reveal_sets`, second output (`interior`): the same with the target position itself
-left out — the digests of the elements strictly above a target position -/
-theorem interiorSets_spec (T cur : List Digest) (e : Env) (d : Digest) :
-    d ∈ interiorSets T cur e ↔
-      ∃ p x, e.at p = some x ∧ memD T x.digest = true ∧
-        (d ∈ cur ∨ ∃ q y, q <+: p ∧ q ≠ p ∧ e.at q = some y ∧ y.digest = d) := by
-  rw [interiorSets_collect]
-  simp [CollectSpec, OnPath]
-
 /-- the subset test of `proof_contains_set` succeeds iff every target occurs -/
 theorem targets_subset_iff (T : List Digest) (e : Env) :
     (∀ d ∈ T, memD (revealSets T [] e) d = true) ↔ ∀ d ∈ T, d ∈ walkDigests e :=
   targets_subset_iff_walk T e
 
+/-- `has_target_beneath`: some position strictly below holds a target -/
+theorem hasTargetBeneath_spec (T : List Digest) (e : Env) :
+    hasTargetBeneath T e = true ↔ ∃ st t y, e.at (st :: t) = some y ∧ memD T y.digest = true :=
+  hasTargetBeneath_iff T e
+
 /-! ### the prover -/
 
 section
-variable (h : Hash) (A : Aead) (Z : Deflate)
+variable (h : Hash)
 
 /-- `proof_contains_set` in closed form; in particular it neither fails nor panics on an
 envelope satisfying the invariant -/
 theorem proof_eq (e : Env) (T : List Digest) (hi : Inv h e) :
-    proofContainsSet h A Z e T =
+    proofContainsSet h e T =
       .ok (if T.all (memD (revealSets T [] e)) then some (proofOf T e) else none) := by
-  rw [proofContainsSet_eq h A Z e T hi.1 (Canon.shape e hi.2)]
+  rw [proofContainsSet_eq h T e hi.1 (Canon.shape e hi.2)]
   split <;> rfl
 
 example : Inv sumH e0 := inv_e0
 
 theorem proof_no_fault (e : Env) (T : List Digest) (hi : Inv h e) :
-    (∀ s, proofContainsSet h A Z e T ≠ .err s) ∧ (∀ s, proofContainsSet h A Z e T ≠ .panic s) := by
-  rw [proof_eq h A Z e T hi]
+    (∀ s, proofContainsSet h e T ≠ .err s) ∧ (∀ s, proofContainsSet h e T ≠ .panic s) := by
+  rw [proof_eq h e T hi]
   exact ⟨fun s hs => (by cases hs), fun s hs => (by cases hs)⟩
 
 example : Inv sumH e0 := inv_e0
@@ -110,21 +114,21 @@ example : Inv sumH e0 := inv_e0
 library never builds) the `assert!` of `new_with_unchecked_assertions` fires -/
 theorem proof_panics_without_canon :
     WF sumH eP ∧
-    proofContainsSet sumH A Z eP [⟨7⟩] = .panic "envelope.rs:new_with_unchecked_assertions:assert" :=
-  ⟨wf_eP, proofContainsSet_eP A Z⟩
+    proofContainsSet sumH eP [⟨7⟩] = .panic "envelope.rs:new_with_unchecked_assertions:assert" :=
+  ⟨wf_eP, proofContainsSet_eP⟩
 
 /-- **a proof is produced iff every target occurs in the envelope** -/
 theorem proof_some_iff (e : Env) (T : List Digest) (hi : Inv h e) :
-    (∃ p, proofContainsSet h A Z e T = .ok (some p)) ↔ ∀ d ∈ T, d ∈ walkDigests e := by
-  rw [proof_eq h A Z e T hi, ← targets_subset_iff, ← all_memD_iff]
+    (∃ p, proofContainsSet h e T = .ok (some p)) ↔ ∀ d ∈ T, d ∈ walkDigests e := by
+  rw [proof_eq h e T hi, ← targets_subset_iff, ← all_memD_iff]
   by_cases hall : T.all (memD (revealSets T [] e)) = true <;> simp [hall]
 
 example : Inv sumH e0 ∧ ∀ d ∈ T0, d ∈ walkDigests e0 := ⟨inv_e0, by decide +kernel⟩
 
 /-- otherwise the answer is `None` -/
 theorem proof_none_iff (e : Env) (T : List Digest) (hi : Inv h e) :
-    proofContainsSet h A Z e T = .ok none ↔ ∃ d ∈ T, d ∉ walkDigests e := by
-  rw [proof_eq h A Z e T hi]
+    proofContainsSet h e T = .ok none ↔ ∃ d ∈ T, d ∉ walkDigests e := by
+  rw [proof_eq h e T hi]
   have := targets_subset_iff T e
   rw [← all_memD_iff] at this
   by_cases hall : T.all (memD (revealSets T [] e)) = true
@@ -140,27 +144,28 @@ example : Inv sumH e0 ∧ ∃ d ∈ [(⟨2⟩ : Digest), ⟨9⟩], d ∉ walkDig
 
 /-- the "only if" half needs no hypothesis on the envelope -/
 theorem proof_some_only_if (e : Env) (T : List Digest) (p : Env)
-    (hp : proofContainsSet h A Z e T = .ok (some p)) : ∀ d ∈ T, d ∈ walkDigests e := by
+    (hp : proofContainsSet h e T = .ok (some p)) : ∀ d ∈ T, d ∈ walkDigests e := by
   rw [← targets_subset_iff, ← all_memD_iff]
   cases hall : T.all (memD (revealSets T [] e)) with
   | true => rfl
   | false => simp [proofContainsSet, hall] at hp
 
-example : proofContainsSet sumH A Z e0 T0 = .ok (some (proofOf T0 e0)) := proof_e0 A Z
+example : proofContainsSet sumH e0 T0 = .ok (some (proofOf T0 e0)) := proof_e0
 
-/-- a produced proof is `proofOf T e` -/
+/-- a produced proof is `proofOf T e`, and every target occurs in the envelope -/
 theorem proof_ok_eq (e : Env) (T : List Digest) (p : Env) (hi : Inv h e)
-    (hp : proofContainsSet h A Z e T = .ok (some p)) :
-    p = proofOf T e ∧ ∀ d ∈ T, d ∈ revealSets T [] e := by
-  rw [proof_eq h A Z e T hi] at hp
+    (hp : proofContainsSet h e T = .ok (some p)) :
+    p = proofOf T e ∧ ∀ d ∈ T, d ∈ walkDigests e := by
+  refine ⟨?_, proof_some_only_if h e T p hp⟩
+  rw [proof_eq h e T hi] at hp
   by_cases hall : T.all (memD (revealSets T [] e)) = true
   · simp only [hall, if_true, Res.ok.injEq, Option.some.injEq] at hp
-    exact ⟨hp.symm, fun d hd => (memD_iff _ _).mp ((all_memD_iff _ _).mp hall d hd)⟩
+    exact hp.symm
   · simp [hall] at hp
 
 /-- the sample: targets `2`, `1: 2` (which contains `2`) and `4` in `7 [1: 2, 1: 4]` -/
-example : Inv sumH e0 ∧ proofContainsSet sumH A Z e0 T0 = .ok (some (proofOf T0 e0)) :=
-  ⟨inv_e0, proof_e0 A Z⟩
+example : Inv sumH e0 ∧ proofContainsSet sumH e0 T0 = .ok (some (proofOf T0 e0)) :=
+  ⟨inv_e0, proof_e0⟩
 
 /-- its proof: the subject and the leaves are elided, the target `1: 2` stays revealed
 because the target `2` lies beneath it -/
@@ -171,142 +176,121 @@ example : proofOf T0 e0 =
 
 /-- **a produced proof has the envelope's root digest** -/
 theorem proof_digest (e : Env) (T : List Digest) (p : Env) (hi : Inv h e)
-    (hp : proofContainsSet h A Z e T = .ok (some p)) : p.digest = e.digest := by
-  obtain ⟨rfl, _⟩ := proof_ok_eq h A Z e T p hi hp
-  rw [proofOf, prune_digest, prune_digest]
+    (hp : proofContainsSet h e T = .ok (some p)) : p.digest = e.digest := by
+  obtain ⟨rfl, _⟩ := proof_ok_eq h e T p hi hp
+  exact proofOf_digest T e
 
-example : Inv sumH e0 ∧ proofContainsSet sumH A Z e0 T0 = .ok (some (proofOf T0 e0)) :=
-  ⟨inv_e0, proof_e0 A Z⟩
+example : Inv sumH e0 ∧ proofContainsSet sumH e0 T0 = .ok (some (proofOf T0 e0)) :=
+  ⟨inv_e0, proof_e0⟩
 
 /-- every target occurs in a produced proof -/
 theorem proof_contains_targets (e : Env) (T : List Digest) (p : Env) (hi : Inv h e)
-    (hp : proofContainsSet h A Z e T = .ok (some p)) : ∀ d ∈ T, d ∈ walkDigests p := by
-  obtain ⟨rfl, hall⟩ := proof_ok_eq h A Z e T p hi hp
+    (hp : proofContainsSet h e T = .ok (some p)) : ∀ d ∈ T, d ∈ walkDigests p := by
+  obtain ⟨rfl, hall⟩ := proof_ok_eq h e T p hi hp
   intro d hd
   exact target_in_proof hd (hall d hd)
 
-example : Inv sumH e0 ∧ proofContainsSet sumH A Z e0 T0 = .ok (some (proofOf T0 e0)) :=
-  ⟨inv_e0, proof_e0 A Z⟩
+example : Inv sumH e0 ∧ proofContainsSet sumH e0 T0 = .ok (some (proofOf T0 e0)) :=
+  ⟨inv_e0, proof_e0⟩
 
 /-- **a produced proof is accepted**, for the same targets, by any verifier whose envelope
 has the same root digest — for instance one who holds only the elided root -/
 theorem proof_accepted (e : Env) (T : List Digest) (p : Env) (hi : Inv h e)
-    (hp : proofContainsSet h A Z e T = .ok (some p)) :
+    (hp : proofContainsSet h e T = .ok (some p)) :
     ∀ e' : Env, e'.digest = e.digest → confirmContainsSet e' T p = true := by
   intro e' he'
   rw [confirm_iff]
-  exact ⟨by rw [he', proof_digest h A Z e T p hi hp], proof_contains_targets h A Z e T p hi hp⟩
+  exact ⟨by rw [he', proof_digest h e T p hi hp], proof_contains_targets h e T p hi hp⟩
 
-example : Inv sumH e0 ∧ proofContainsSet sumH A Z e0 T0 = .ok (some (proofOf T0 e0)) ∧
+example : Inv sumH e0 ∧ proofContainsSet sumH e0 T0 = .ok (some (proofOf T0 e0)) ∧
     (Env.elided e0.digest).digest = e0.digest :=
-  ⟨inv_e0, proof_e0 A Z, rfl⟩
+  ⟨inv_e0, proof_e0, rfl⟩
 
 /-! ### what a proof discloses -/
 
-/-- **minimality, by digests** (no further hypothesis).  Every position of the proof is a
-position of the envelope with the same digest; an element the proof shows non-elided has
-the digest of an element strictly above a target position (it is in the interior set) and
-was not elided in the envelope; an element whose digest is a target with no target
-beneath it is shown elided. -/
+/-- **minimality, by positions — for every envelope satisfying the invariant and every
+target set, with no hypothesis on the hash.**  Every position of the proof is a position of
+the envelope with the same digest, and the proof shows it non-elided exactly when it lies
+strictly above a target position.  Hence every element off the paths from the root to the
+targets, and each target with no target beneath it, appears solely as an elided digest —
+including elements that share their digest with an element on a path. -/
 theorem proof_minimal (e : Env) (T : List Digest) (p : Env) (hi : Inv h e)
-    (hp : proofContainsSet h A Z e T = .ok (some p)) :
+    (hp : proofContainsSet h e T = .ok (some p)) :
     ∀ pos x, p.at pos = some x →
       ∃ y, e.at pos = some y ∧ x.digest = y.digest ∧
-        (x.isElided = false → y.isElided = false ∧
-          ∃ t w q z, e.at t = some w ∧ memD T w.digest = true ∧ q <+: t ∧ q ≠ t ∧
-            e.at q = some z ∧ z.digest = x.digest) ∧
-        (x.digest ∈ T → x.digest ∉ interiorSets T [] e → x.isElided = true) := by
-  obtain ⟨rfl, _⟩ := proof_ok_eq h A Z e T p hi hp
+        (x.isElided = false ↔ AboveTarget T e pos) := by
+  obtain ⟨rfl, _⟩ := proof_ok_eq h e T p hi hp
   intro pos x hx
-  obtain ⟨y, hy, hxy, hd⟩ := proofOf_at_inv hx
-  refine ⟨y, hy, hd, ?_, ?_⟩
-  · intro hn
-    obtain ⟨hint, hny⟩ := proofOf_not_elided hxy hn
-    refine ⟨hny, ?_⟩
-    obtain ⟨t, w, hw, hm, q, z, hq, hne, hz, hzd⟩ := mem_interior_iff.mp hint
-    exact ⟨t, w, q, z, hw, hm, hq, hne, hz, hzd.trans hd.symm⟩
-  · intro hT hnI
-    cases hel : x.isElided with
-    | true => rfl
-    | false =>
-      obtain ⟨hint, _⟩ := proofOf_not_elided hxy hel
-      rw [hd] at hnI
-      exact absurd hint hnI
+  obtain ⟨y, hy, rfl, _⟩ := proofOf_at_iff.mp hx
+  refine ⟨y, hy, proofOf_digest T y, ?_⟩
+  rw [proofOf_isElided, ← hasTargetBeneath_at_iff hy]
+  cases hasTargetBeneath T y <;> simp
 
-example : Inv sumH e0 ∧ proofContainsSet sumH A Z e0 T0 = .ok (some (proofOf T0 e0)) :=
-  ⟨inv_e0, proof_e0 A Z⟩
+example : Inv sumH e0 ∧ proofContainsSet sumH e0 T0 = .ok (some (proofOf T0 e0)) :=
+  ⟨inv_e0, proof_e0⟩
 
-/-- **minimality, by positions**, under two decidable hypotheses: the envelope is
-`DigestFaithful` (two non-obscured elements with the same digest have children with the
-same digests — what a collision-free hash gives) and no elided, encrypted or compressed
-element carries the digest of an element strictly above a target
-(`NoObscuredInterior`).  Then every non-elided position of the proof lies strictly above
-a target position: every position off the paths, and every target position with no
-target beneath it, holds an elided digest. -/
-theorem proof_minimal_partial (e : Env) (T : List Digest) (p : Env) (hi : Inv h e)
-    (hF : DigestFaithful e) (hO : NoObscuredInterior T e)
-    (hp : proofContainsSet h A Z e T = .ok (some p)) :
-    ∀ pos x, p.at pos = some x → x.isElided = false → AboveTarget T e pos := by
-  obtain ⟨rfl, _⟩ := proof_ok_eq h A Z e T p hi hp
-  intro pos x hx hn
-  exact proofOf_above_target hF hO hx hn
-
-example : Inv sumH e0 ∧ DigestFaithful e0 ∧ NoObscuredInterior T0 e0 ∧
-    proofContainsSet sumH A Z e0 T0 = .ok (some (proofOf T0 e0)) :=
-  ⟨inv_e0, faithful_e0, noObscured_e0, proof_e0 A Z⟩
-
-/-- in particular every position that is not strictly above a target position — every
-position off the paths, and every target position with no target beneath it — holds an
-elided digest -/
+/-- every position that is not strictly above a target position — every position off the
+paths, and every target position with no target beneath it — holds an elided digest -/
 theorem proof_off_path_elided (e : Env) (T : List Digest) (p : Env) (hi : Inv h e)
-    (hF : DigestFaithful e) (hO : NoObscuredInterior T e)
-    (hp : proofContainsSet h A Z e T = .ok (some p)) :
+    (hp : proofContainsSet h e T = .ok (some p)) :
     ∀ pos x, p.at pos = some x → ¬ AboveTarget T e pos → x.isElided = true := by
   intro pos x hx hna
+  obtain ⟨y, _, _, hiff⟩ := proof_minimal h e T p hi hp pos x hx
   cases hel : x.isElided with
   | true => rfl
-  | false => exact absurd (proof_minimal_partial h A Z e T p hi hF hO hp pos x hx hel) hna
+  | false => exact absurd (hiff.mp hel) hna
 
-example : Inv sumH e0 ∧ DigestFaithful e0 ∧ NoObscuredInterior T0 e0 ∧
-    proofContainsSet sumH A Z e0 T0 = .ok (some (proofOf T0 e0)) :=
-  ⟨inv_e0, faithful_e0, noObscured_e0, proof_e0 A Z⟩
+example : Inv sumH e0 ∧ proofContainsSet sumH e0 T0 = .ok (some (proofOf T0 e0)) :=
+  ⟨inv_e0, proof_e0⟩
 
-/-- the same under the hypothesis in its coarser form: no obscured element carries a digest
-of the reveal set -/
-theorem proof_minimal_partial_reveal (e : Env) (T : List Digest) (p : Env) (hi : Inv h e)
-    (hF : DigestFaithful e)
-    (hO : ∀ x ∈ elements e, x.isObscured = true → memD (revealSets T [] e) x.digest = false)
-    (hp : proofContainsSet h A Z e T = .ok (some p)) :
-    ∀ pos x, p.at pos = some x → x.isElided = false → AboveTarget T e pos := by
-  apply proof_minimal_partial h A Z e T p hi hF _ hp
-  intro x hx ho
-  have := hO x hx ho
-  rw [memD_false_iff] at this ⊢
-  exact fun hint => this (interior_sub_reveal hint)
+/-- conversely the paths are all there: every position of the envelope strictly above a
+target position is a position of the proof, non-elided, with the envelope's digest; and
+every target position is a position of the proof -/
+theorem proof_shows_paths (e : Env) (T : List Digest) (p : Env) (hi : Inv h e)
+    (hp : proofContainsSet h e T = .ok (some p)) :
+    (∀ pos y, e.at pos = some y → AboveTarget T e pos →
+      ∃ x, p.at pos = some x ∧ x.isElided = false ∧ x.digest = y.digest) ∧
+    (∀ t, IsTargetPos T e t → ∃ x, p.at t = some x ∧ memD T x.digest = true) := by
+  obtain ⟨rfl, _⟩ := proof_ok_eq h e T p hi hp
+  constructor
+  · intro pos y hy hab
+    obtain ⟨t, hpt, hne, ht⟩ := hab
+    have hopen : OpenAbove T e pos := by
+      intro q z hq hqne hz
+      exact openAbove_of_target ht q z (hq.trans hpt) (by
+        intro heq; subst heq
+        exact hqne (List.IsPrefix.eq_of_length hq (Nat.le_antisymm hq.length_le hpt.length_le))) hz
+    refine ⟨proofOf T y, proofOf_at_iff.mpr ⟨y, hy, rfl, hopen⟩, ?_, proofOf_digest T y⟩
+    rw [proofOf_isElided, (hasTargetBeneath_at_iff hy).mpr ⟨t, hpt, hne, ht⟩]; rfl
+  · intro t ht
+    exact target_pos_in_proof ht
 
-example : Inv sumH e0 ∧ DigestFaithful e0 ∧
-    (∀ x ∈ elements e0, x.isObscured = true → memD (revealSets T0 [] e0) x.digest = false) ∧
-    proofContainsSet sumH A Z e0 T0 = .ok (some (proofOf T0 e0)) :=
-  ⟨inv_e0, faithful_e0, by decide +kernel, proof_e0 A Z⟩
+example : Inv sumH e0 ∧ proofContainsSet sumH e0 T0 = .ok (some (proofOf T0 e0)) :=
+  ⟨inv_e0, proof_e0⟩
+
+/-- a proof carries no content at all: every element of it is an elided digest or the
+shallow frame (node / wrapped / assertion) of an element on a path — never a leaf, a known
+value, an encrypted or a compressed element -/
+theorem proof_no_payload (e : Env) (T : List Digest) (p : Env) (hi : Inv h e)
+    (hp : proofContainsSet h e T = .ok (some p)) :
+    ∀ pos x, p.at pos = some x → x.isElided = true ∨ x.isInternal = true := by
+  obtain ⟨rfl, _⟩ := proof_ok_eq h e T p hi hp
+  intro pos x hx
+  obtain ⟨y, _, rfl, _⟩ := proofOf_at_iff.mp hx
+  exact proofOf_cases T y
+
+example : Inv sumH e0 ∧ proofContainsSet sumH e0 T0 = .ok (some (proofOf T0 e0)) :=
+  ⟨inv_e0, proof_e0⟩
+
+/-- the shape of the repaired finding F5b (`COMPRESSED(digest 3) [1: 2]`, target `2`): the
+compressed subject, which shares its digest with the assertion on the path, is elided -/
+theorem proof_F5b_repaired :
+    Inv sumH eB ∧
+    proofContainsSet sumH eB TB =
+      .ok (some (.node (.elided ⟨3⟩) [.assertion (.elided ⟨1⟩) (.elided ⟨2⟩) ⟨3⟩] eB.digest)) := by
+  refine ⟨inv_eB, ?_⟩
+  rw [proof_eq sumH eB TB inv_eB, all_eB, if_pos rfl, proof_eB]
 
 end
-
-/-- minimality by positions without the hypothesis on obscured elements -/
-def proof_minimal_full_statement : Prop :=
-  ∀ (h : Hash) (A : Aead) (Z : Deflate) (e : Env) (T : List Digest) (p : Env),
-    Inv h e → DigestFaithful e → proofContainsSet h A Z e T = .ok (some p) →
-    ∀ pos x, p.at pos = some x → x.isElided = false → AboveTarget T e pos
-
-/-- **finding F5b**: the full statement fails.  In `COMPRESSED(digest 3) [1: 2]` the
-subject is a compressed element with the digest of the assertion `1: 2`; the proof for the
-target `2` reveals the digest 3 (the assertion is on the path), so the first pass keeps
-the subject as it is, and the second pass does not touch it: the proof carries the
-compressed content although the subject is on no path to the target. -/
-theorem proof_minimal_full_false : ¬ proof_minimal_full_statement := by
-  intro hfull
-  have hp : proofContainsSet sumH trivA trivZ eB TB = .ok (some (proofOf TB eB)) := by
-    rw [proof_eq sumH trivA trivZ eB TB inv_eB, all_eB]; rfl
-  exact not_above_eB
-    (hfull sumH trivA trivZ eB TB _ inv_eB faithful_eB hp [.subj] _ proof_eB_subj rfl)
 
 end EnvVerif
